@@ -100,25 +100,59 @@ def precedence(run, fx):
                      'key first, then earlier rule" (%d of 9 order types wrong)' % ('l' + so + 'r', 'l' + ro + 'r', got, len(bad)))
     else:
         run.held('PRECEDENCE', 'RuleEntry::operator<', lt.where(), 'all 9 order types of (sort, address): true iff lsort > rsort or (equal and lower address)')
-    # cmpRuleEntry
+    # cmpRuleEntry: evaluated over the three order types (a < b, b < a, neither) it must give -1 / 1 / 0
     cf = fx.one('cmpRuleEntry')
-    rets = [e for _, e in cf.elements() if e['k'] == 'ReturnStmt']
-    ok = False
-    if rets:
-        n = cf.strip_all_casts(rets[0]['c'][0])
-        if n['k'] == 'ConditionalOperator':
-            c1 = cf.render(cf.N(n['c'][0])).replace(' ', '')
-            v1 = cf.strip_all_casts(n['c'][1]).get('v')
-            n2 = cf.strip_all_casts(n['c'][2])
-            if n2['k'] == 'ConditionalOperator':
-                c2 = cf.render(cf.N(n2['c'][0])).replace(' ', '')
-                v2, v3 = cf.strip_all_casts(n2['c'][1]).get('v'), cf.strip_all_casts(n2['c'][2]).get('v')
-                ok = 'operator<' in c1 and 'operator<' in c2 and v1 == -1 and v2 == 1 and v3 == 0 and \
-                    c1.index('a') < c1.index(',') and c2.index('b') < c2.index(',')
+    pv = [p_['vid'] for p_ in cf.f['params']]
+
+    def role(x):
+        for y in cf.walk(cf.deref(x)):
+            y = cf.deref(y)
+            if y['k'] == 'DeclRefExpr' and y.get('vid') in pv:
+                return 'ab'[pv.index(y['vid'])]
+            for z in cf.walk(y):
+                if z['k'] == 'DeclRefExpr' and z.get('vid') in pv:
+                    return 'ab'[pv.index(z['vid'])]
+        return None
+
+    def lt_atom(node, pol):
+        n = cf.strip_all_casts(node)
+        if n['k'] == 'CXXOperatorCallExpr' and (n.get('fq') or '').endswith('RuleEntry::operator<') and len(n.get('args') or []) == 2:
+            r = (role(n['args'][0]), role(n['args'][1]))
+            if r in (('a', 'b'), ('b', 'a')):
+                return (r[0] + r[1], pol)
+        return None
+
+    def outcomes(expr, conds):
+        n = cf.strip_all_casts(expr)
+        if n['k'] == 'ConditionalOperator' and len(n.get('c') or []) == 3:
+            out = []
+            for pol, arm in ((True, n['c'][1]), (False, n['c'][2])):
+                cs = list(conds)
+                for at, p_ in dom.atoms(cf, n['c'][0], pol):
+                    cs.append(lt_atom(at, p_))
+                out += outcomes(arm, cs)
+            return out
+        return [(conds, dom._cval(cf, expr))]
+
+    outs = []
+    for _, e in cf.elements():
+        if e['k'] == 'ReturnStmt' and e.get('c'):
+            cs = []
+            for cnd, pol in dom.edge_guards(cf, cf.block_of[e['i']]):
+                for at, p_ in dom.atoms(cf, cnd, pol):
+                    cs.append(lt_atom(at, p_))
+            outs += outcomes(e['c'][0], cs)
+    ok = bool(outs) and all(c is not None for cs, _ in outs for c in cs)
+    got = {}
     if ok:
-        run.held('PRECEDENCE', 'cmpRuleEntry', cf.where(), 'a < b ? -1 : (b < a ? 1 : 0)')
+        for name, asg in (('a<b', {'ab': True, 'ba': False}), ('b<a', {'ab': False, 'ba': True}), ('equal', {'ab': False, 'ba': False})):
+            vals = {v for cs, v in outs if all(asg[k] == p_ for k, p_ in cs)}
+            got[name] = sorted(vals, key=str)
+        ok = got == {'a<b': [-1], 'b<a': [1], 'equal': [0]}
+    if ok:
+        run.held('PRECEDENCE', 'cmpRuleEntry', cf.where(), 'a < b -> -1, b < a -> 1, neither -> 0 (over RuleEntry::operator<)')
     else:
-        run.violated('PRECEDENCE', 'cmpRuleEntry', cf.where(), 'the qsort comparator is no longer a < b ? -1 : (b < a ? 1 : 0) over RuleEntry::operator<')
+        run.violated('PRECEDENCE', 'cmpRuleEntry', cf.where(), 'the qsort comparator no longer maps RuleEntry::operator< to -1 / 1 / 0 (a < b, b < a, neither): it gives %s' % (got or outs))
     # qsort of each state's rule list with that comparator
     rs = fx.one('graphite2::Pass::readStates')
     qs = calls_in(rs, 'qsort')
@@ -279,4 +313,6 @@ def run(run):
     firstpassing(run, fx)
     pureconstraint(run, vm)
     passorder(run, fx)
+    from . import c19
+    c19.dirflag(run, fx, 'PASSORDER')       # the reversed-stream flag that decides whether a pass re-reverses stays in step with the stream
     recycleclean(run, fx)
